@@ -5,6 +5,8 @@ import (
 	"go/token"
 )
 
+func init() { register(genThrottle) }
+
 // Facts of throttle.go (C17).
 func genThrottle(c *ctx) *leanFile {
 	l := c.newLean("Throttle", "throttle.go")
